@@ -2,7 +2,10 @@ package node
 
 import (
 	"bytes"
+	"fmt"
 	"strings"
+
+	"github.com/freeconf/yang/fc"
 )
 
 type PathMatcher interface {
@@ -11,7 +14,11 @@ type PathMatcher interface {
 
 type PathMatchExpression struct {
 	paths []segments
+	err   error
 }
+
+// every group multiplies the number of paths an expression stands for
+const maxPathMatchPaths = 4096
 
 // a single, denormalized list of idents after parsing expression
 //
@@ -27,6 +34,9 @@ type segments []string
 func ParsePathExpression(selector string) (*PathMatchExpression, error) {
 	pe := &PathMatchExpression{}
 	pe.parsex(&lex{selector: selector})
+	if pe.err != nil {
+		return nil, pe.err
+	}
 	return pe, nil
 }
 
@@ -64,7 +74,15 @@ func (e *PathMatchExpression) parsex(l *lex) {
 		case "(":
 			nested := &PathMatchExpression{}
 			nested.parsex(l)
+			if nested.err != nil {
+				e.err = nested.err
+				return
+			}
 			s.expandPaths(nested)
+			if s.err != nil {
+				e.err = s.err
+				return
+			}
 		case ";":
 			if split != nil {
 				e.appendPaths(s)
@@ -102,6 +120,15 @@ func (e *PathMatchExpression) parsex(l *lex) {
 //	   [c, d, e, f]
 //	   [c, d, g, h]
 func (e *PathMatchExpression) expandPaths(sub *PathMatchExpression) {
+	if len(e.paths) == 0 {
+		// a group that starts the expression
+		e.paths = append(e.paths, sub.paths...)
+		return
+	}
+	if len(e.paths)*len(sub.paths) > maxPathMatchPaths {
+		e.err = fmt.Errorf("%w. path expression stands for more than %d paths", fc.BadRequestError, maxPathMatchPaths)
+		return
+	}
 	expanded := make([]segments, len(e.paths)*len(sub.paths))
 	for i, dest := range e.paths {
 		for j, src := range sub.paths {
